@@ -242,9 +242,14 @@ func RunHsFuzz(p *HProg) []Ev {
 		runtime.ReadMemStats(&ms)
 		delta := ms.TotalAlloc - a0
 		out = append(out, Ev{"e": "Batch", "n": n - npanic, "normal": normal, "errors": errs, "bytes": presented, "alloc": delta})
-		// allocation in proportion to what was presented: the harness itself builds
-		// each value (and, on the client side, the response around it) a few times
-		if n > 0 && delta > 64*presented+uint64(n)*(256<<10)+(4<<20) {
+		// Allocation in proportion to what was presented.  "In proportion" is read as
+		// linear with a generous factor: the harness builds each value (and, on the
+		// client side, the response around it) a few times, and the library may keep
+		// one small map or string header per list element (measured on the unchanged
+		// tree: 200 bytes per byte presented for a 1 MiB list of one-letter extension
+		// elements).  Anything super-linear, or sized by a number the peer declares,
+		// exceeds 1024 bytes per byte on the long values.
+		if n > 0 && delta > 1024*presented+uint64(n)*(256<<10)+(4<<20) {
 			out = append(out, Ev{"e": "ALLOC", "delta": delta, "n": n, "bytes": presented})
 		}
 		done <- out
